@@ -118,14 +118,18 @@ func (vm *VirtualMachine) applyOptions(options []Option) error {
 	}
 	vm.globals = globals
 
-	// Add any globals that are modules to a cache to make them available
-	// to import statements
+	vm.registerGlobalModules()
+	return nil
+}
+
+// registerGlobalModules adds the globals that are modules to the module cache,
+// which makes them available to import statements.
+func (vm *VirtualMachine) registerGlobalModules() {
 	for name, value := range vm.globals {
 		if module, ok := value.(*object.Module); ok {
 			vm.modules[name] = module
 		}
 	}
-	return nil
 }
 
 func (vm *VirtualMachine) start(ctx context.Context) error {
@@ -210,8 +214,11 @@ func (vm *VirtualMachine) runCodeInternal(ctx context.Context, codeToRun *compil
 		vm.stop()
 	}()
 
-	// Reset VM state for new code execution if requested
-	if resetState && vm.startCount > 1 {
+	// Reset VM state for new code execution if requested. Whether there is
+	// anything to reset is a matter of what is loaded, not of how often this
+	// VM has started: a clone starts for the first time with the code its
+	// original had loaded, bound to the original's globals.
+	if resetState && (vm.startCount > 1 || len(vm.loadedCode) > 0 || len(vm.modules) > 0) {
 		vm.resetForNewCode()
 	}
 
@@ -290,7 +297,12 @@ func (vm *VirtualMachine) resetForNewCode() {
 	vm.activeFrame = nil
 	vm.activeCode = nil
 	vm.loadedCode = map[*compiler.Code]*code{}
+	// Forget the modules the previous code imported, but not the ones the
+	// host supplies as globals: applyOptions has registered those for this
+	// run already, and without them "import math" fails from the second
+	// RunCode on
 	vm.modules = map[string]*object.Module{}
+	vm.registerGlobalModules()
 
 	// Clear arrays
 	for i := 0; i < MaxStackDepth; i++ {
